@@ -94,6 +94,9 @@ func run(c *hlib.Ctx) {
 	runGSS(c, n)
 	runBisect(c, n)
 	runResiduals(c, n)
+	runRealRoots(c, n)
+	runLength(c, n)
+	runPeaked(c, n)
 }
 
 func emit(c *hlib.Ctx, m mode, kind string, args string, impl func() string) {
